@@ -437,7 +437,7 @@ type litem struct {
 	eol  int // 0 LF, 1 CR LF, 2 lone CR, 3 nothing at the very end (LF otherwise)
 }
 
-func wsItem(c int) litem                  { return litem{ws: c} }
+func wsItem(c int) litem                 { return litem{ws: c} }
 func comment(text string, eol int) litem { return litem{ws: -1, text: text, eol: eol} }
 
 type slot struct {
